@@ -36,10 +36,16 @@ def run_property(pid, tier, seed, replay=None):
         all_thms += theorems_of(m)
     axioms, audit_problems = ({}, [])
     unchecked = []          # names of obligations that no longer check
+    rechecked = False
     if ok_build:
         axioms, audit_problems = audit(P.LEAN_MODS)
         for pr in audit_problems:
             unchecked.append(pr)
+        if tier == "thorough":
+            lc = leanchecker(P.LEAN_MODS)
+            rechecked = not lc
+            for pr in lc:
+                unchecked.append(pr)
     else:
         for f, decls in failing.items():
             for d in decls:
@@ -175,7 +181,8 @@ def run_property(pid, tier, seed, replay=None):
     coverage = {
         "obligations": obligations,
         "discharged": discharged,
-        "checker_cmd": "cd /verif/lean && lake build " + " ".join(P.LEAN_MODS) + " && lake env lean <#print axioms for every theorem>",
+        "checker_cmd": "cd /verif/lean && lake build " + " ".join(P.LEAN_MODS) + " && lake env lean <#print axioms for every theorem>"
+                       + (" && lake env leanchecker " + " ".join(P.LEAN_MODS) if rechecked else ""),
         "trusted_base": [
             "Lean 4.33.0 kernel",
             "axioms used by these theorems: " + (", ".join(used_axioms) or "none"),
